@@ -12,6 +12,7 @@ import Driver.CrashCoreDrv
 import Driver.WrapDrv
 import Driver.MsgWinDrv
 import Driver.FfiDrv
+import Driver.MemLruDrv
 
 def main (args : List String) : IO UInt32 := do
   match args with
@@ -29,4 +30,5 @@ def main (args : List String) : IO UInt32 := do
   | ["wrap"] => Driver.WrapDrv.main; return 0
   | ["msgwin"] => Driver.MsgWinDrv.main; return 0
   | ["ffi"] => Driver.FfiDrv.main; return 0
+  | ["memlru"] => Driver.MemLruDrv.main; return 0
   | _ => IO.eprintln "usage: mdkdrv store < ops"; return 2
